@@ -83,6 +83,12 @@ def curve_eval(ctx, p, mult, rational, span, clamped, samples):
     if clamped:
         # sampled grid on the whole (normalised) domain
         crv.sample_size = samples
+        # history: a sub-range evaluation first; the following full evaluate() must again cover the whole domain
+        crv.evaluate(start=lo, stop=lo + (hi - lo) * Fraction(1, 2))
+        sub = crv.evalpts
+        ctx.check_true('subrange.size', len(sub) == samples)
+        ctx.check_eq_vec('subrange.last=C(mid)', sub[-1], C(lo + (hi - lo) * Fraction(1, 2)))
+        crv.evaluate()
         pts = crv.evalpts
         ctx.check_true('grid.size', len(pts) == samples, 'len(evalpts)=%d, sample_size=%d' % (len(pts), samples))
         for i in range(samples):
@@ -140,6 +146,9 @@ def surface_eval(ctx, pu, pv, mu, mv, rational, span, samples):
     ctx.check_eq_vec('evaluate_list[0]', got[0], want)
     ctx.check_eq_vec('derivatives.order0', srf.derivatives(u, v, 0)[0][0], want)
     srf.sample_size_u, srf.sample_size_v = samples
+    srf.evaluate(stop_u=Fraction(1, 2), start_v=Fraction(1, 2))          # sub-range first, then the full grid
+    ctx.check_true('subrange.size', len(srf.evalpts) == samples[0] * samples[1])
+    srf.evaluate()
     pts = srf.evalpts
     ctx.check_true('grid.size', len(pts) == samples[0] * samples[1])
     for i in range(samples[0]):
